@@ -315,7 +315,13 @@ def rule_removal_cleans_the_tables(ctx):
         rm = prog.lib(p + "::remove_argument")
         if not r.require_anchor(rm, p + "::remove_argument"):
             continue
-        bodies = prog.with_closures(rm)
+        bodies = list(prog.with_closures(rm))
+        # the private helpers of the encoder the removal goes through (`retire_solver_var(var, lit)`, ..)
+        for x in prog.reachable_from([rm], virtual_dispatch=False).values():
+            if x.kind != "closure" and x is not rm and x.impl and x.impl.get("self_adt") == p and not x.impl.get("trait"):
+                for y in prog.with_closures(x):
+                    if y not in bodies:
+                        bodies.append(y)
         opt_tables = [f["name"] for v in adt["variants"] for f in v["fields"] if f["ty"].replace(" ", "") == "alloc::vec::Vec<core::option::Option<usize>>"]
         kind_tables = [f["name"] for v in adt["variants"] for f in v["fields"] if re.search(r"Vec<.*SolverVarType>", f["ty"])]
         stores = [(y, st) for y in bodies for st in indexed_stores(prog, y)]
@@ -327,8 +333,38 @@ def rule_removal_cleans_the_tables(ctx):
                     out.add(e[3][0])
             return out
 
+        from ..prov import expand_params
+
+        def trees_of(y, op):
+            """the trees of an operand, with the parameters of the encoder's private helpers replaced by what their callers pass"""
+            out = set()
+            for e in prov(prog, y, op):
+                out |= expand_params(prog, e, 2) if prog.enclosing_fn(y) is not rm else {e}
+            return out
+
         def by_removed_id(y, op):
-            return any(_is_call(t, r"Label::id$", 1) and any(_is_call(z, r"get_argument$|get_label$") for z in subterms(t)) for e in prov(prog, y, op) for t in subterms(e))
+            return any(_is_call(t, r"Label::id$", 1) and any(_is_call(z, r"get_argument$|get_label$") for z in subterms(t)) for e in trees_of(y, op) for t in subterms(e))
+
+        # clearing an entry: `table[i] = None` or `table[i].take()`
+        class _Clear:
+            def __init__(self, y, site, recv, idx):
+                self.y, self.site, self.recv, self.idx = y, site, recv, idx
+
+            def loc(self):
+                return self.site.loc()
+
+        clears = []
+        for y in bodies:
+            for st in indexed_stores(prog, y):
+                if ("agg", "None", ()) in st.vals:
+                    clears.append(_Clear(y, st.site, st.recv, st.idx))
+            for s in y.calls():
+                if callee_decl(callee_of(s)) in ("core::option::Option::take", "core::mem::take") and s.node["args"]:
+                    for e in prov(prog, y, s.node["args"][0]):
+                        if _is_call(e, r"IndexMut::index_mut$|Index::index$", 2):
+                            for o in origins(y, s.node["args"][0], transparent=()):
+                                if o.kind == "call" and callee_decl(o.data) == "core::ops::index::IndexMut::index_mut":
+                                    clears.append(_Clear(y, s, o.site.node["args"][0], o.site.node["args"][1]))
 
         # (1) the kind table
         anchor = rm.id + "|kind"
@@ -342,7 +378,7 @@ def rule_removal_cleans_the_tables(ctx):
             r.violation(anchor, "kind-not-reset", "remove_argument leaves the removed variable registered as an argument in the variable->argument table: a model is decoded with an argument that no longer exists", rm.loc())
         else:
             y, st = resets[0]
-            via_table = any(_is_call(t, r"Index::index$", 2) and t[2][0][0] == "param" and t[2][0][3] and t[2][0][3][0] in opt_tables for e in prov(prog, y, st.idx) for t in subterms(e))
+            via_table = any(_is_call(t, r"Index::index$|IndexMut::index_mut$|Option::take$", None) and any(z[0] == "param" and z[3] and z[3][0] in opt_tables for z in subterms(t) if isinstance(z, tuple)) for e in trees_of(y, st.idx) for t in subterms(e))
             r.check(via_table, anchor, "kind-reset-index", "the entry overwritten is that of the removed argument's variable", "the variable->argument entry overwritten on removal is not the one of the removed argument's variable (%s)" % "; ".join(show(e)[:60] for e in prov(prog, y, st.idx)), st.loc())
             if adds and y is rm:
                 a = adds[0]
@@ -364,7 +400,7 @@ def rule_removal_cleans_the_tables(ctx):
         for t in sorted(pertables):
             n += 1
             anchor = "%s|table:%s" % (rm.id, t)
-            cl = [(y, st) for y, st in stores if t in field_of(y, st.recv) and ("agg", "None", ()) in st.vals]
+            cl = [(c.y, c) for c in clears if t in field_of(c.y, c.recv)]
             if not cl:
                 r.violation(anchor, "entry-not-cleared", "remove_argument does not clear the removed argument's entry of `%s`: the entry outlives the argument (and is found again when the id or the label is looked at later)" % t, rm.loc())
                 continue
